@@ -230,6 +230,14 @@ def get_coordinates_from_indices(idx, info, **kwargs):
             z = None
         x = info.loc[idx, X_axis].values
         y = info.loc[idx, Y_axis].values
+        # Integer columns (e.g. int8 pixel coordinates) would wrap around in the
+        # squared distances of the shape constraints: hand out floats instead.
+        x, y, z = (
+            v.astype(float)
+            if v is not None and np.issubdtype(v.dtype, np.integer)
+            else v
+            for v in (x, y, z)
+        )
 
         return (x, y, z) if z is not None else (x, y)
 
